@@ -121,3 +121,53 @@ def chunker_siblings(repo: Repo, L: Ledger, rule: str):
             L.check(is_fetch and not wrapped, rule, f"{f.short}:yield", "yields the fetched chunk unchanged", f"forward chunker yields '{norm(ycall)}' (wrappers {wrapped})", f.loc(ycall))
         else:
             L.check(is_fetch and wrapped == ["revcomp_bytes_io"], rule, f"{f.short}:yield", "yields the reverse complement of each fetched chunk", f"reverse chunker yields '{norm(ycall)}' (wrappers {wrapped}); each chunk must be reverse-complemented exactly once", f.loc(ycall))
+
+
+def gap_iter_exact(repo: Repo, L: Ledger, rule: str):
+    """get_gap_iter renders a gap of `length` as exactly `length` characters for every buffer size:
+    chunk i holds [i·B, min(length, i·B + B)) (0-based half-open, sizes telescope) and the index runs
+    over a range that covers ⌈length/B⌉ chunks (an extra empty chunk is harmless)."""
+    fi = repo.cls("FastaIndex")
+    g = fi.methods.get("get_gap_iter")
+    if g is None:
+        raise AnalysisError("anchor FastaIndex.get_gap_iter vanished")
+    ex = _ChunkExec(repo)
+    st = State()
+    st.heap[("self", "buffer_size")] = Lin.atom("B")
+    st.heap[("gap", "length")] = Lin.atom("G")
+    ps = g.params()
+    args = {ps[0]: Sym("self", fi), ps[1]: Sym("gap")}
+    for p in ps[2:]:
+        args[p] = Sym(p)
+    finals = ex.run_function(g, st, args)
+    if len(finals) != 1 or len(ex.ranges) != 1:
+        raise AnalysisError("get_gap_iter: expected one path with one range loop")
+    r = finals[0]
+    ys = [e for e in r.effects if e[0] == "yield"]
+    if len(ys) != 1:
+        L.fail(rule, g.short, f"{len(ys)} yields per iteration", g.loc())
+        return
+    yn = ys[0][1].value
+    mult = [n for n in ast.walk(yn) if isinstance(n, ast.BinOp) and isinstance(n.op, ast.Mult)]
+    if len(mult) != 1:
+        L.fail(rule, g.short, f"gap chunk '{norm(yn)}' is not <character> * <count>", g.loc())
+        return
+    stt = State()
+    stt.env = r.callee_env
+    stt.heap = r.heap
+    cnt = None
+    for side in (mult[0].right, mult[0].left):
+        v = ex.eval(side, stt, g)
+        if isinstance(v, Lin) and v.t:
+            cnt = v
+            break
+    if cnt is None:
+        raise AnalysisError("gap chunk repeat count is not an integer form")
+    B, G, I = Lin.atom("B"), Lin.atom("G"), Lin.atom("I")
+    want = opaque("min", G, I * B + B) - I * B
+    L.check(cnt == want, rule, g.short + ":chunk", "chunk i holds min(length, i·B + B) − i·B characters (half-open tiling)", f"gap chunk i holds {cnt} characters, expected min(length, i·B + B) − i·B: consecutive chunks do not tile the gap, so a gap of at least one buffer is rendered with the wrong number of N (record shorter/longer than its AGP object)", g.loc(yn), witness={"gap": "length = 2·buffer_size", "rendered": "one character short per full chunk"})
+    lo, hi, step = (as_lin(x) for x in ex.ranges[0].bounds())
+    q = opaque("fdiv", G, B)
+    q2 = opaque("fdiv", G + B - 1, B)
+    ok = lo == Lin.const(0) and step == Lin.const(1) and (hi == q + 1 or hi == q2)
+    L.check(ok, rule, g.short + ":range", "i = 0 … ⌈length/B⌉ − 1 (or one extra empty chunk)", f"gap chunk index runs over range({lo}, {hi}, {step}); expected range(0, 1 + length//B) (or ceil(length/B))", g.loc())
